@@ -4,11 +4,12 @@ import MindsVerif.Gen.Reserved
 /-!
 # C07 — constants render as inert, exact literals in every output path
 
-* SQLAlchemy path: `renderLiteral` is the `LiteralCompiler.render_literal_value` override (the same text for
-  every dialect).  `C07_std` (unbounded, all strings): a standard-SQL string-literal reader (`stdLex`:
+* SQLAlchemy path: `renderLiteral mysql` is `quote_literal(value, dialect)` behind the
+  `LiteralCompiler.render_literal_value` override.  `C07_mysql` (all strings): the MySQL rendering is read back
+  by the MySQL reader.  `C07_std` (unbounded, all strings): a standard-SQL string-literal reader (`stdLex`:
   PostgreSQL / SQLite / MSSQL / Oracle) reads the rendered text back as exactly the value and stops exactly
   at its end, whatever follows; `C07_structure`: hence what follows the literal is the same for every
-  value.  For the MySQL reader (backslash escapes) the statement is false: `C07_witness_mysql`.
+  value.  `C07_witness_mysql*`: regression examples of the repaired defect (standard rendering read by MySQL).
 * `to_string()` path: `Constant.get_string` against the library's own MindsDB lexer: `C07_tostring_partial`
   (values in which every backslash is followed by a character other than `\ ' "`): the token ends exactly
   at the end of the printed literal; false in general: `C07_witness_tostring`.
@@ -20,32 +21,36 @@ open MindsVerif MindsVerif.Py MindsVerif.Lex MindsVerif.Denote MindsVerif.Litera
 def C07_full (render : List Char → List Char) (lexer : List Char → Option (List Char × List Char)) : Prop :=
   ∀ v rest : List Char, rest.head? ≠ some '\'' → lexer (render v ++ rest) = some (v, rest)
 
-/-- **T7.2** standard-SQL targets, all strings -/
-theorem C07_std : C07_full renderLiteral stdLex := by
+/-- **T7.2** standard-SQL targets (postgres, sqlite, mssql, oracle), all strings -/
+theorem C07_std : C07_full (renderLiteral false) stdLex := by
   intro v rest hr
-  simp [renderLiteral, stdLex, stdBody_render rest hr v]
+  simp [renderLiteral, renderBody, stdLex, stdBody_render rest hr v]
+
+/-- **T7.2 (MySQL)** all strings: the MySQL rendering (quotes doubled, then backslashes doubled — /repo 8d4e738)
+is read back by the MySQL reader (backslash escapes on) as exactly the value -/
+theorem C07_mysql : C07_full (renderLiteral true) mysqlLex := by
+  intro v rest hr
+  simp [renderLiteral, mysqlLex, mysqlBody_render rest hr v]
 
 /-- **T7.3** the text behind the literal is read from the same position for every value: the statement
-structure does not depend on the data -/
+structure does not depend on the data (standard SQL and MySQL) -/
 theorem C07_structure (v v' rest : List Char) (hr : rest.head? ≠ some '\'') :
-    (stdLex (renderLiteral v ++ rest)).map Prod.snd = (stdLex (renderLiteral v' ++ rest)).map Prod.snd := by
-  rw [C07_std v rest hr, C07_std v' rest hr]; rfl
+    (stdLex (renderLiteral false v ++ rest)).map Prod.snd = (stdLex (renderLiteral false v' ++ rest)).map Prod.snd ∧
+    (mysqlLex (renderLiteral true v ++ rest)).map Prod.snd = (mysqlLex (renderLiteral true v' ++ rest)).map Prod.snd := by
+  rw [C07_std v rest hr, C07_std v' rest hr, C07_mysql v rest hr, C07_mysql v' rest hr]; exact ⟨rfl, rfl⟩
 
-/-- MySQL reader (backslash escapes): `\' OR 1=1 -- ` renders as `'\'' OR 1=1 -- '`, read as the value `'`
-followed by ` OR 1=1 -- '` -/
 def attack : List Char := ['\\', '\'', ' ', 'O', 'R', ' ', '1', '=', '1', ' ', '-', '-', ' ']
 
-theorem C07_witness_mysql : ¬ C07_full renderLiteral mysqlLex := by
+/-! regression examples for the repaired defect (fixed: 8d4e738): the *standard* rendering must not be used for
+MySQL — `\' OR 1=1 -- ` rendered as `'\'' OR 1=1 -- '` is read by MySQL as `'` followed by ` OR 1=1 -- '` -/
+theorem C07_witness_mysql : ¬ C07_full (renderLiteral false) mysqlLex := by
   intro h
   have := h attack [] (by decide)
   revert this; decide
 
 theorem C07_witness_mysql_value :
-    mysqlLex (renderLiteral attack) = some (['\''], [' ', 'O', 'R', ' ', '1', '=', '1', ' ', '-', '-', ' ', '\'']) := by
-  decide
-
-/-- for the MySQL reader the statement holds for values without a backslash -/
-theorem C07_mysql_partial_example : mysqlLex (renderLiteral ['i', 't', '\'', 's']) = some (['i', 't', '\'', 's'], []) := by
+    mysqlLex (renderLiteral false attack) = some (['\''], [' ', 'O', 'R', ' ', '1', '=', '1', ' ', '-', '-', ' ', '\'']) ∧
+    mysqlLex (renderLiteral true attack) = some (attack, []) := by
   decide
 
 /-- **T7.1 (partial)** `to_string()` against the library's own lexer: the printed literal is exactly one token -/
@@ -68,7 +73,7 @@ theorem C07_witness_tostring :
 example : RenderPins.paramstyle = "named" := by decide
 
 /-! non-vacuity -/
-example : stdLex (renderLiteral attack ++ [';']) = some (attack, [';']) := by decide
+example : stdLex (renderLiteral false attack ++ [';']) = some (attack, [';']) := by decide
 example : encOK ['a', '\'', 'b'] = true := by decide
 
 end MindsVerif.Props.C07
